@@ -41,10 +41,16 @@ func (c vxCfgA) alphabet() []vxOp {
 				a = append(a, vxOp{"save", k, f, v})
 			}
 			a = append(a, vxOp{"load", k, f, 0}, vxOp{"delete", k, f, 0})
+			if f == c.Fans[0] {
+				a = append(a, vxOp{"starved-load", k, f, 0})
+			}
 			for _, x := range c.Corr {
 				a = append(a, vxOp{"corrupt", k, f, x})
 			}
 		}
+	}
+	if len(c.Vals) > 0 {
+		a = append(a, vxOp{"save-noid", 0, 0, c.Vals[len(c.Vals)-1]}, vxOp{"save-noid", 1, 0, c.Vals[len(c.Vals)-1]})
 	}
 	return append(a, vxOp{Op: "reopen"})
 }
